@@ -1,13 +1,13 @@
 CONSTANTS
   MaxReq = 3
-  Kinds <- AllKinds
+  Kinds <- KillOnly
   GapKinds <- Gaps01
   UniformGaps = FALSE
   PipeCap = 2
   BigChunks = 3
   BreakOutAfterPanic = TRUE
   DrainAbandoned = TRUE
-  RespawnOnEpipe = TRUE
+  RespawnOnEpipe = FALSE
 CHECK_DEADLOCK FALSE
 SPECIFICATION Spec
-INVARIANTS OneReplyEach OwnReply Isolation NoStale GenPattern EmitCase
+INVARIANTS TypeOK OneReplyEach OwnReply Isolation NoStale
